@@ -64,6 +64,13 @@ claim("C20", "exploration", MON + "recording backends under sequential prefixes,
       "Round-robin balance after every prefix and after concurrent runs; consistent hash is a function into valid indices for 6 hashers; retry attempt numbering, request identity (Arc pointer), stop point and returned result.",
       "", "DESIGN.md 4/C20")
 
+claim("C15", "exploration", MON + "differential in/out comparison of generated message sequences over every shipped transport with adversarial fragmentation; end-of-stream check; error-kind table check",
+      "Whatever is written at one end must be read at the other, complete, unmodified and in order, for all variants, boundary ids, empty/unicode/64 KiB/1 MiB bodies, every io::ErrorKind the platform can produce, with reads and writes split down to one byte and Pending injected anywhere, ending by drop or by close; optional fields removed from hand-edited JSON; the codec is used exactly as shipped (Bincode::default()).",
+      "real TCP not exercised (in-memory pipe + Unix-socket smoke run)", "DESIGN.md 4/C15")
+claim("C16", "exploration", MON + "panic monitor (catch_unwind around every poll, child-process exit status) under hostile bytes, boundary-valued wire messages and extreme local deadlines, in three subscriber modes",
+      "Mutated encodings against both decoders in both directions (child process), 84 wire-level boundary deadlines with a probe that must still be served, S-server/S-client scenarios with extreme ids and deadlines and duplicate/unknown-id floods under no / fmt / OpenTelemetry subscriber; a stall after an odd-but-well-formed message counts as a violation.",
+      "known finding F7 (DelayQueue insert after >1.18 years without a fired timer) is matched by exact signature", "DESIGN.md 4/C16, 5.1")
+
 ALL = ["C%02d" % i for i in range(1, 21)]
 
 def main():
